@@ -19,19 +19,39 @@ structure SampleIndex where
 namespace SampleIndex
 
 /-- `parameters` — the two roundings use `bits::div_round_up`, i.e. `(value + n - 1) / n` -/
-def parameters (m : Mode) (values univ : Nat) : Outcome (Nat × Nat) := do
+def parametersOld (m : Mode) (values univ : Nat) : Outcome (Nat × Nat) := do
   let ns ← divRoundUp m values 8
   let divisor ← divRoundUp m univ ns
   let ns ← divRoundUp m univ divisor
   return (ns, divisor)
 
-/-- inner `while` of `new`: consume values ≤ threshold; asserts strict monotonicity -/
+/-- overflow-free rounding `value / n + (value % n != 0)`; division by zero panics -/
+def divRoundUpSafe (value n : Nat) : Outcome Nat :=
+  if n = 0 then fault (.panic .other) else ok (value / n + (if value % n ≠ 0 then 1 else 0))
+
+/-- `parameters` (repaired, finding F8): the two roundings of the universe no longer add before dividing -/
+def parameters (m : Mode) (values univ : Nat) : Outcome (Nat × Nat) := do
+  let ns ← divRoundUp m values 8
+  let divisor ← divRoundUpSafe univ ns
+  let ns ← divRoundUpSafe univ divisor
+  return (ns, divisor)
+
+/-- inner `while` of `new` as first coded: asserted *strict* monotonicity (finding F10) -/
+def consumeOld (threshold : Nat) : Nat → Nat → Nat → List Nat → Outcome (Nat × Nat × List Nat)
+  | 0, _, _, _ => fault .fuel
+  | _, offset, prev, [] => ok (offset, prev, [])
+  | fuel + 1, offset, prev, value :: rest =>
+    if value > threshold then ok (offset, prev, value :: rest)
+    else if prev < value then consumeOld threshold fuel (offset + 1) value rest
+    else fault (.panic .assert)
+
+/-- inner `while` of `new` (repaired): consume values ≤ threshold; asserts that they are non-decreasing -/
 def consume (threshold : Nat) : Nat → Nat → Nat → List Nat → Outcome (Nat × Nat × List Nat)
   | 0, _, _, _ => fault .fuel
   | _, offset, prev, [] => ok (offset, prev, [])
   | fuel + 1, offset, prev, value :: rest =>
     if value > threshold then ok (offset, prev, value :: rest)
-    else if prev < value then consume threshold fuel (offset + 1) value rest
+    else if prev ≤ value then consume threshold fuel (offset + 1) value rest
     else fault (.panic .assert)
 
 def fill (m : Mode) (divisor : Nat) : List Nat → Nat → Nat → List Nat → IntVec → Outcome (IntVec × Nat)
@@ -126,10 +146,18 @@ def trySet (m : Mode) (b : RLBuilder) (start len : Nat) : Outcome RLBuilder :=
   else if U64 - 1 - len < start then fault (.err .other)
   else b.setRunUnchecked m start len
 
-def setLen (m : Mode) (b : RLBuilder) (len : Nat) : Outcome RLBuilder :=
+/-- `set_len` as first coded: the active run keeps its old start (finding F9) -/
+def setLenOld (m : Mode) (b : RLBuilder) (len : Nat) : Outcome RLBuilder :=
   if len > b.len then do
     let b ← b.flush m
     return { b with len := len }
+  else ok b
+
+/-- `set_len` (repaired): the active run is reset to `(len, 0)` -/
+def setLen (m : Mode) (b : RLBuilder) (len : Nat) : Outcome RLBuilder :=
+  if len > b.len then do
+    let b ← b.flush m
+    return { b with len := len, run := (len, 0) }
   else ok b
 
 def countZeros (m : Mode) (b : RLBuilder) : Outcome Nat := subM m b.len b.ones
